@@ -5,7 +5,7 @@ CONSTANTS
   AtomsInPlay <- MCAtoms
   SlotsInPlay <- MCSlots
   Messages <- MCMessages
-  MaxMsgs = 4
+  MaxMsgs = 3
   ReaderIgnoresSegment = FALSE
 INVARIANT Resolved
 INVARIANT CachesAgree
